@@ -391,7 +391,8 @@ static std::string step(const toks_t &t) {
       // what was accepted must survive a second trip unchanged
       try {
         dtype_t r2 = dtype_t::fromJson(r->toJson(r->name()).toString());
-        if (desc(r2) != desc(*r)) hp::oracle("accepted JSON does not round-trip: " + desc(*r) + " -> " + desc(r2));
+        if (desc(r2, false) != desc(*r, false) || r2.name() != r->name())
+          hp::oracle("accepted JSON does not round-trip: " + desc(*r) + " -> " + desc(r2));
       } catch (occa::exception &e) { hp::oracle("accepted JSON: second fromJson throws"); }
       return push(r);
     }
